@@ -253,6 +253,10 @@ func (e *Engine) registerIntrinsics() {
 
 	// ---------------- time ----------------
 	timeNow := func(c *PathCtx) Value {
+		if c.eng.cfg.FrozenClock {
+			// the wall clock does not advance during the scenario (timers never fire)
+			return Struct{mkBV(64, 0), mkBV(64, 1000), (*Value)(nil)}
+		}
 		c.clockN++
 		n := c.newVar(SBV(64), fmt.Sprintf("clock.now%d", c.clockN))
 		// non-decreasing, and far from wrap-around
